@@ -43,6 +43,75 @@ func BasePrograms() []*Program {
 			{{Op: "stop", Mode: "nodeadline"}},
 		},
 	})
+	// A3: a Flush served as an ack-only request while a data flush is wedged, then
+	// a second data flush wedged with another Flush behind it (history-dependent barriers)
+	for _, kind := range []string{"create", "close", "update"} {
+		ps = append(ps, &Program{
+			Name: "A3-flush-history-" + kind,
+			Cfg:  Cfg{IBS: 2, MBRows: 1},
+			Calls: []Call{rowsCall(1, "buf", 1, 1), {ID: 2, Kind: "force", Chan: "buf"}, rowsCall(3, "unbuf", 1, 1),
+				{ID: 4, Kind: "force", Chan: "buf"}, rowsCall(5, "buf", 1, 1), {ID: 6, Kind: "force", Chan: "buf"}},
+			Faults: []Fault{{Kind: kind, Nth: 1, Mode: "wedge"}, {Kind: kind, Nth: 2, Mode: "wedge"}, {Kind: kind, Nth: 3, Mode: "wedge"}},
+			Phases: [][]Op{
+				{{Op: "start"}},
+				{calls("c1", 1)},
+				{calls("c2", 2)},
+				{{Op: "unwedge", Mode: kind + "#1"}},
+				{calls("c1", 3)},
+				{calls("c2", 4)},
+				{{Op: "unwedge", Mode: kind + "#2"}},
+				{calls("c1", 5)},
+				{calls("c2", 6)},
+				{{Op: "unwedge", Mode: kind + "#3"}},
+				{{Op: "stop", Mode: "nodeadline"}},
+			},
+		})
+	}
+	// E: done channels whose receiver shows up late (the caller "keeps receiving", just not yet)
+	ps = append(ps, &Program{
+		Name: "E-late-receivers",
+		Cfg:  Cfg{IBS: 2, MBRows: 2},
+		Calls: []Call{{ID: 1, Kind: "bad", Chan: "late", Rows: 2, BadAt: 0}, {ID: 2, Kind: "empty", Chan: "late"},
+			rowsCall(3, "late", 1, 1), rowsCall(4, "buf", 1, 1)},
+		Phases: [][]Op{
+			{{Op: "start"}},
+			{calls("c1", 1)},
+			{{Op: "stop", Mode: "nodeadline"}, calls("c2", 2, 3), calls("c3", 4)},
+			{{Op: "recvstart", Calls: []int{1}}},
+			{{Op: "recvstart", Calls: []int{2, 3}}},
+		},
+	})
+	ps = append(ps, &Program{
+		Name:  "E2-late-receiver-empty",
+		Cfg:   Cfg{IBS: 2, MBRows: 2},
+		Calls: []Call{{ID: 1, Kind: "empty", Chan: "late"}, rowsCall(2, "late", 1, 1), {ID: 3, Kind: "force", Chan: "buf"}},
+		Phases: [][]Op{
+			{{Op: "start"}},
+			{calls("c1", 1)},
+			{{Op: "stop", Mode: "nodeadline"}},
+			{{Op: "recvstart", Calls: []int{1}}},
+		},
+	})
+	// E3: the deadline fires while Stop is still on its way to waiting for the workers, a
+	// delivery to a not-yet-receiving caller is abandoned, the workers finish, and only
+	// then does Stop look at its context (run several times: the runtime picks among ready cases)
+	for k := 0; k < 6; k++ {
+		ps = append(ps, &Program{
+			Name:   fmt.Sprintf("E3-deadline-before-wait-%d", k),
+			Cfg:    Cfg{IBS: 2, MBRows: 2},
+			Calls:  []Call{{ID: 1, Kind: "empty", Chan: "late"}, rowsCall(2, "late", 1, 1)},
+			Faults: []Fault{{Kind: "point:stopper|stop.waiting", Nth: 1, Mode: "wedge"}},
+			Phases: [][]Op{
+				{{Op: "start"}},
+				{calls("c1", 1)},
+				{calls("c2", 2)},
+				{{Op: "stop", Mode: "custom"}},
+				{{Op: "deadline"}},
+				{{Op: "unwedge", Mode: "point:"}},
+				{{Op: "recvstart", Calls: []int{1, 2}}},
+			},
+		})
+	}
 	// B: never started / started late
 	ps = append(ps, &Program{
 		Name:  "B-nostart",
